@@ -741,11 +741,12 @@ def State.popBufPkt (st : State) (x : Seid) (pdr : Nat) : State × Option Bytes 
     | some (p :: rest) => (st.setSess { s with q := alSet s.q pdr rest }, some p)
 
 /-- where `ServeReport` sends: `net.ResolveUDPAddr("udp4", "<node id>:8805")`. An IPv4 node id resolves to the
-    address of the peer that owns it; IPv6 literals and FQDNs (no resolver) do not resolve as udp4, and the report
-    is dropped (known finding, C10). -/
-def reportDest : NodeId → Option String
+    address of the peer that owns it; IPv6 literals and FQDNs (no resolver) do not resolve as udp4: the report then goes
+    to the address the node associated from, port 8805 (the `fix:` commit for C10). -/
+def reportDest (n : RNode) : Option String :=
+  match n.id with
   | .v4 peer => some peer
-  | _ => none
+  | _ => some n.addr
 
 def buffF : BitVec 16 := BitVec.ofNat 16 Gen.report.APPLY_ACT_BUFF
 def nocpF : BitVec 16 := BitVec.ofNat 16 Gen.report.APPLY_ACT_NOCP
@@ -775,7 +776,7 @@ def serveReport (st : State) (x : Seid) (items : List RepItem) (c : Ctx) : State
   match st.lnode.lookup x with
   | none => (st, c)
   | some s0 =>
-    match reportDest (st.nodes.getD s0.rnode default).id with
+    match reportDest (st.nodes.getD s0.rnode default) with
     | none => (st, c)
     | some dest =>
       match serveLoop x dest items st c [] with
